@@ -181,6 +181,8 @@ fn run_c40(ctx: &mut Ctx, rep: &mut Report) {
             // accepted here): the stored point stays needed until the certificate expires, not until nextUpdate
             if w.cas[c].mft_ee_na > t0 + DAY && rng.chance(1, 3) { w.cas[c].mft_next = t0 + 3600; w.cas[c].crl_next = t0 + 3600; }
         }
+        // host names are case-insensitive: a third of the histories spell one repository's host with capitals
+        if rng.chance(1, 3) { w.host_override.insert(1, "R1.Rpki.TEST".to_string()); }
         let dirty = rng.chance(1, 3);
         let pol = Policy { stale: Filter::Accept, ..Policy::default() };
         let mut env = Env::new(&ctx.scratch.join("env"));
@@ -234,7 +236,8 @@ fn run_c40(ctx: &mut Ctx, rep: &mut Report) {
             let was_planted = planted.is_some();
             if let Some((path, aside)) = planted.take() { let _ = std::fs::remove_dir_all(&path); if let Some(d) = path.parent() { let _ = std::fs::create_dir_all(d); } let _ = std::fs::rename(&aside, &path); }
             let after = list_files(&cache);
-            let fetched_any: BTreeSet<String> = env.rsync_log().iter().filter_map(|l| l["module"].as_str().map(|s| s.to_string())).collect();
+            let lc = |m: &str| match m.split_once('/') { Some((h, rest)) => format!("{}/{}", h.to_ascii_lowercase(), rest), None => m.to_ascii_lowercase() };
+            let fetched_any: BTreeSet<String> = env.rsync_log().iter().filter_map(|l| l["module"].as_str().map(|s| lc(s))).collect();
             // files inside a module that was fetched in this run are the mirror's business, not cleanup's
             let in_fetched = |f: &str| fetched_any.iter().any(|m| f.starts_with(&format!("rsync/{m}/")));
             trace.push(format!("step {k}: {:?} -> {}", events, if out.snapshot.is_some() { "ok" } else { "failed" }));
@@ -272,14 +275,14 @@ fn run_c40(ctx: &mut Ctx, rep: &mut Report) {
                 }
             }
             // module copies
-            let fetched: BTreeSet<String> = env.rsync_log().iter().filter(|l| l["code"].as_i64() == Some(0)).filter_map(|l| l["module"].as_str().map(|s| s.to_string())).collect();
+            let fetched: BTreeSet<String> = env.rsync_log().iter().filter(|l| l["code"].as_i64() == Some(0)).filter_map(|l| l["module"].as_str().map(|s| lc(s))).collect();
             for m in &fetched {
                 if !after.iter().any(|f| f.starts_with(&format!("rsync/{m}/"))) && p_has_files(&env, m) {
                     rep.violation("C40/fetched-module-removed", format!("module {m} was fetched successfully in this run but its copy is gone after cleanup"), replay.clone());
                 }
             }
             for (repo_uri, _) in &stored_after {
-                let m = repo_uri.trim_start_matches("rsync://"); let mut it = m.splitn(3, '/'); let module = format!("{}/{}", it.next().unwrap_or(""), it.next().unwrap_or(""));
+                let m = repo_uri.trim_start_matches("rsync://"); let mut it = m.splitn(3, '/'); let module = format!("{}/{}", it.next().unwrap_or("").to_ascii_lowercase(), it.next().unwrap_or(""));
                 let had = before.iter().any(|f| f.starts_with(&format!("rsync/{module}/"))) || fetched.contains(&module);
                 if had && !after.iter().any(|f| f.starts_with(&format!("rsync/{module}/"))) {
                     rep.violation("C40/module-of-retained-point-removed", format!("the stored point for {repo_uri} is retained but the copy of its module {module} was removed"), replay.clone());
